@@ -116,3 +116,16 @@ pub fn verifier_handle(p: &Presentation) -> bool {
 
 pub fn parse(j: &str) -> Value { serde_json::from_str(j).unwrap_or(Value::Null) }
 pub fn arc_key(k: &Arc<KeyMat>) -> Arc<KeyMat> { k.clone() }
+
+/// a wide credential (n up to WIDE attributes) signed and presented with the wide bases
+pub fn wide_issue_and_present(key: &KeyMat, msgs: &[Integer], hidden: &[usize]) -> ((Integer, Integer, Integer), String) {
+    let bases = Bases(key.bases_wide.0[..msgs.len()].to_vec());
+    let sig = Signature::<Sch>::sign_multiattr(&key.pk, &key.sk, &bases, &msgs_of(msgs));
+    let parts = crate::scen_sig::sig_parts(&sig);
+    let p = PoKSignature::<Sch>::proof_gen(sig.cl03Signature(), &key.cpk_wide, &key.pk, &bases, &msgs_of(msgs), hidden);
+    (parts, serde_json::to_string(&p).unwrap())
+}
+pub fn wide_verify(key: &KeyMat, proof_json: &str, revealed: &[Integer], hidden: &[usize], n: usize) -> bool {
+    let Ok(pok) = serde_json::from_str::<PoKSignature<Sch>>(proof_json) else { return false };
+    pok.proof_verify(&key.cpk_wide, &key.pk, &Bases(key.bases_wide.0[..n].to_vec()), &msgs_of(revealed), hidden, n)
+}
